@@ -478,6 +478,8 @@ type Guarded struct {
 	Field  string
 	Mutex  string // field name of the mutex in the same struct
 	Read   bool   // rlocked suffices for reads
+	Send   bool
+	WriteOnly bool
 	Props  []string
 	PkgPath string
 }
@@ -784,6 +786,16 @@ func (cs *ContractSet) ParseContractFile(path, pkgPath string) error {
 				}
 				if parts[i] == "rw" {
 					g.Read = true
+					continue
+				}
+				if parts[i] == "send" {
+					// the field is a wake-up channel: every send on it happens holding the mutex
+					g.Send = true
+					continue
+				}
+				if parts[i] == "write" {
+					// only writes need the mutex (reads of an immutable-after-publication field are free)
+					g.WriteOnly = true
 					continue
 				}
 				g.Props = append(g.Props, strings.Trim(parts[i], ","))
